@@ -9,7 +9,7 @@ import random
 from .. import common, conc
 
 GEN = ['Locks.v', 'Decisions.v']
-DECISIONS = ['BuildDirs.error_building_file', 'BuildDirs.started_building_file', 'Cache._assert_doesnt_have_norm_cased_file', 'Cache._assert_doesnt_have_subbuild', 'Cache.abort_building_file', 'Cache.finish_building_file', 'Cache.finish_subbuild', 'Cache.start_building_file', 'Cache.start_subbuild', 'Cache.use_cached_operation']
+DECISIONS = ['BuildDirs.error_building_file', 'BuildDirs.started_building_file', 'Cache._assert_doesnt_have_norm_cased_file', 'Cache._assert_doesnt_have_subbuild', 'Cache.abort_building_file', 'Cache.finish_building_file', 'Cache.finish_subbuild', 'Cache.start_building_file', 'Cache.start_subbuild', 'Cache.use_cached_operation', 'SimpleOperationExecutor.__init__', 'SimpleOperationExecutor._file_hash', 'SimpleOperationExecutor._file_metadata', 'SimpleOperationExecutor.file_comparison_result']
 SITES = False
 ORDER = False
 
@@ -41,6 +41,10 @@ def scenarios():
         # looking at N and registering (two pre-emptions; always explored at bound 2)
         scen("first-fails-after-write", F, [bf("a", ["N", "a"], "fa"), bf("b", ["N", "b"], "w")]),
         scen("first-fails-before-write", F, [bf("a", ["N", "a"], "fb"), bf("b", ["N", "b"], "w")]),
+        # two threads hash different outputs at the same time (scheduling points after every chunk read)
+        scen("hash-two-files", dict(F, wa={"*": [["write", ["arg", 0]], ["ret", ["lit", 1]]]}),
+             [[["build_file", "a", ["N", "a"], "HASH", "wa", ["AAAA-first-content"], {}], ["ret", ["var", "a"]]],
+              [["build_file", "b", ["N", "b"], "HASH", "wa", ["BBBB-second-content-longer"], {}], ["ret", ["var", "b"]]]]),
         scen("both-fail", F, [bf("a", ["N", "a"], "fb"), bf("b", ["N", "b"], "fa")]),
         scen("one-does-not-create", F, [bf("a", ["N", "a"], "nc"), bf("b", ["N", "b"], "w")]),
         scen("nested-parents", F, [bf("a", ["N", "M", "a"], "w"), bf("b", ["N", "b"], "w")]),
